@@ -3,6 +3,7 @@
 Oracle: the library against itself (slice vs whole-file translation) on every cell of the precedent closure, closure
 computed independently by vf/xlref's reference analysis; cyclic workbooks must end in the library's parser exception."""
 import datetime as dt
+import os
 
 from .. import pipeline, wbspec
 from ..findings import report
@@ -526,6 +527,97 @@ def run_deepchain(ctx):
     r.sample({'deep_chains': 'Cn = C(n-1)+An for 60 / 250 rows; Cn = ROUND(IF(AND(..),SUM(C(n-1),An)-Bn,C(n-1)),2) for 40 / 120 rows'})
 
 
+def run_raisedlimit(ctx):
+    """the host has raised the interpreter's recursion limit (services that translate deep models do): cycles LONGER than any small
+    bound - a ring of 300 and of 400 cells, a ring of 20 behind a chain of 245, a ring of 5 behind a chain of 300 - are refused with
+    the library's parser exception in all three modes like the rings of 1..5 cells, and an acyclic chain of 600 cells gives the same value
+    through its last cell's slice as through the whole file.  Runs in a thread with a large stack so that depth is the interpreter's
+    business only."""
+    import sys
+    import threading
+    from excel2pycl import E2PyclParserException
+    r = ctx.r
+
+    def body():
+        for (lead, ring) in ((0, 300), (0, 400), (245, 20), (300, 5), (0, 257), (255, 2)):
+            cells = {'A1': 1, 'A2': 2}
+            n = lead + ring
+            for i in range(1, n):
+                cells[f'C{i}'] = f'=C{i + 1}+1'
+            cells[f'C{n}'] = f'=C{lead + 1}*2'
+            cells['E1'] = '=C1+1'
+            cells['E2'] = '=A1+A2'
+            spec = wbspec.spec(wbspec.sheet('Main', cells))
+            path = wbspec.write(spec, os.path.join(ctx.workdir, f'ring{lead}_{ring}.xlsx'))
+            for mode, entry in (('entry-inside', pipeline.entry_cell('Main', f'C{lead + 1}')), ('entry-in-front', pipeline.entry_cell('Main', 'C1')),
+                                ('entry-outside', pipeline.entry_cell('Main', 'E1')), ('whole-file', None)):
+                t = pipeline.translate(path, entry=entry)
+                r.ev()
+                r.count('long_cyclic_cases')
+                r.nt(('longcyc', lead, ring, mode))
+                if not (t.kind == 'LIB_EXC' and isinstance(t.exc, E2PyclParserException)):
+                    report(r, ID, None, {'spec': {'chain_in_front': lead, 'ring_cells': ring, 'edge': 'Cn = C(n+1)+1, last = first*2'}, 'mode': mode,
+                                         'recursion_limit': sys.getrecursionlimit(), 'long_cycle': [lead, ring]}, str(t.brief())[:200], 'E2PyclParserException',
+                           monitor='cycle-rejected')
+                else:
+                    r.seen('long_cycle_refusals', str(t.exc)[:30])
+            t = pipeline.translate(path, entry=pipeline.entry_cell('Main', 'E2'))
+            r.ev()
+            if not t.ok:
+                report(r, ID, None, {'spec': {'chain_in_front': lead, 'ring_cells': ring}, 'mode': 'entry-not-reaching-the-cycle', 'long_cycle': [lead, ring]},
+                       str(t.brief())[:200], 'a slice', monitor='translate-acyclic')
+        # acyclic and long
+        n = 600
+        cells = {'C1': 100}
+        for i in range(1, n + 1):
+            cells[f'A{i}'] = 1 + i % 3
+        for i in range(2, n + 1):
+            cells[f'C{i}'] = f'=C{i - 1}+A{i}'
+        spec = wbspec.spec(wbspec.sheet('Main', cells))
+        whole = pipeline.Book(spec, ctx.workdir, name='deep600')
+        case = {'spec': {'chain_rows': n, 'formula': '=C{p}+A{i}'}, 'entry': [0, f'C{n}'], 'graph': 'running total under a raised recursion limit',
+                'long_cycle': [n, 0]}
+        r.count('long_chains_under_raised_limit')
+        if whole.cls is None:
+            report(r, ID, None, case, str(whole.whole.brief())[:200], 'a loadable class', monitor='translate-acyclic')
+            return
+        want = pipeline.query(whole.cls, 0, n, 3)
+        exp = 100 + sum(1 + i % 3 for i in range(2, n + 1))
+        r.ev()
+        if not (want.ok and want.value == exp):
+            report(r, ID, None, case, wanstr(t.brief())[:200], exp, monitor='slice-equals-whole')
+        for e in (n, 300):
+            t = pipeline.translate(whole.path, entry=pipeline.entry_cell('Main', f'C{e}'))
+            r.ev()
+            r.nt(('longchain', e))
+            ld = pipeline.load_text(t.value) if t.ok else t
+            got = pipeline.query(ld.value, 0, e, 3) if ld.ok else ld
+            w = 100 + sum(1 + i % 3 for i in range(2, e + 1))
+            if not (got.ok and got.value == w):
+                report(r, ID, None, dict(case, entry=[0, f'C{e}']), gostr(t.brief())[:200], w, monitor='slice-equals-whole')
+
+    old = sys.getrecursionlimit()
+    threading.stack_size(512 * 1024 * 1024)
+    sys.setrecursionlimit(30000)
+    box = []
+
+    def guarded_body():
+        try:
+            body()
+        except BaseException as e:  # noqa: B902
+            box.append(e)
+    try:
+        th = threading.Thread(target=guarded_body)
+        th.start()
+        th.join()
+    finally:
+        sys.setrecursionlimit(old)
+        threading.stack_size(0)
+    if box:
+        raise box[0]
+    r.sample({'raised_limit': 'rings of 300 / 400 / 257 cells, rings of 20 / 5 / 2 behind chains of 245 / 300 / 255 cells, an acyclic chain of 600; recursion limit 30000'})
+
+
 def run_bigarea(ctx):
     """slices whose precedents are reached through areas of a thousand cells and more (a data sheet summed, looked up and counted from a
     summary sheet): every cell of such an area belongs to the slice like the cells of a small one"""
@@ -555,6 +647,7 @@ def plan(tier, seed):
     shards.append({'kind': 'shared'})
     shards.append({'kind': 'deepchain'})
     shards.append({'kind': 'bigarea'})
+    shards.append({'kind': 'raisedlimit'})
     return shards
 
 
@@ -563,6 +656,8 @@ def run_shard(shard, ctx):
     tmon = TranslateMonitor.install(r)
     if 'replay' in shard:
         c = shard['replay']
+        if 'long_cycle' in c:
+            return run_raisedlimit(ctx)
         if 'cycle_kind' in c:
             return run_cycle(ctx, c['spec'], 'C1', c['cycle_kind'], c.get('length', 1), 0)
         if 'entry' in c:
@@ -574,6 +669,8 @@ def run_shard(shard, ctx):
         return run_deepchain(ctx)
     if shard['kind'] == 'bigarea':
         return run_bigarea(ctx)
+    if shard['kind'] == 'raisedlimit':
+        return run_raisedlimit(ctx)
     if shard['kind'] == 'dag':
         for i in range(shard['n']):
             spec, formulas = make_graph(rng, shard['max'])
